@@ -4,6 +4,12 @@ import glob, importlib, json, os, sys
 VERIF = os.path.dirname(os.path.dirname(os.path.abspath(__file__)))
 sys.path.insert(0, VERIF)
 props = {json.loads(l)['id']: json.loads(l) for l in open(os.path.join(VERIF, 'properties.jsonl'))}
+def _expl(pid, m):
+    # the explanation as written into the evidence file by the last run of the check (completed with shared rules)
+    try:
+        return json.load(open(os.path.join(VERIF, 'evidence', pid + '.json')))['coverage']['explanation']
+    except Exception:
+        return m.EXPLANATION
 out = [open(os.path.join(VERIF, 'docs', 'DESIGN.head.md')).read()]
 out.append('Level is `other` unless noted. "Rules" lists the rule ids evaluated by `./check <id>`; shared rules appear under every\nproperty that depends on them.\n')
 for pid in sorted(props):
@@ -11,7 +17,7 @@ for pid in sorted(props):
     rules = [n for n, f in m.RULES]
     out.append('### %s — %s\n' % (pid, props[pid]['title']))
     out.append('Rules: %s.%s\n' % (', '.join(rules), ' Level: `proof` (premises as obligations).' if getattr(m, 'LEVEL', 'other') == 'proof' else ''))
-    out.append('Decided: ' + ' '.join(m.EXPLANATION.split()) + '\n')
+    out.append('Decided: ' + ' '.join(_expl(pid, m).split()) + '\n')
     out.append('Not decided: ' + ' '.join(m.NOT_DECIDED.split()) + '\n')
 out.append(open(os.path.join(VERIF, 'docs', 'DESIGN.tail.md')).read())
 # section 9
